@@ -133,11 +133,15 @@ impl Git {
             envs.push(("HOME", "/does/not/exist"));
             envs.push(("GIT_CONFIG_NOSYSTEM", "1"));
         }
+        #[cfg(gothenburgbitfactory_taskchampion_verif)]
+        crate::server::verif_failpoint::hit("fp.git.before_command")?;
         let output = Command::new(&self.path)
             .envs(envs)
             .args(args)
             .current_dir(dir)
             .output()?;
+        #[cfg(gothenburgbitfactory_taskchampion_verif)]
+        crate::server::verif_failpoint::hit("fp.git.after_command")?;
         let stdout = String::from_utf8_lossy(&output.stdout);
         let stderr = String::from_utf8_lossy(&output.stderr);
         if !stdout.is_empty() {
@@ -664,8 +668,12 @@ impl Server for GitSyncServer {
                 history_segment: history_segment.clone(),
             };
             let version_path = self.add_version_by_parent_version_id(&version)?;
+            #[cfg(gothenburgbitfactory_taskchampion_verif)]
+            crate::server::verif_failpoint::hit("fp.git.version_file_written")?;
             self.meta.latest_version = version_id;
             let meta_path = self.write_meta()?;
+            #[cfg(gothenburgbitfactory_taskchampion_verif)]
+            crate::server::verif_failpoint::hit("fp.git.meta_written")?;
 
             // Commit and push, reverting if push fails.
             self.git.stage_and_commit(
@@ -735,6 +743,8 @@ impl Server for GitSyncServer {
         let snapshot_path = self.local_path.join("snapshot");
         let f = File::create(&snapshot_path)?;
         serde_json::to_writer(f, &snapshot_file)?;
+        #[cfg(gothenburgbitfactory_taskchampion_verif)]
+        crate::server::verif_failpoint::hit("fp.git.snapshot_file_written")?;
 
         // Commit and push, reverting if push fails.
         self.git
